@@ -149,7 +149,9 @@ def run_check(pid, tier, jobs=None, only=None, verbose=False):
                 r["status"], ob.get("mode", "custom"), ob.get("harness"), ob.get("fixed"), r.get("paths"),
                 r.get("wall_s", 0), (r.get("why") or r.get("error") or "")[:3000]), flush=True)
 
-    budget = float(os.environ.get("VERIF_WALL_BUDGET", "0") or 0) or None
+    # every command ends in bounded time: obligations not decided when the wall budget is used up are reported as inconclusive
+    # ("wall budget exhausted"), never as confirmed; the default applies to the thorough tier only
+    budget = float(os.environ.get("VERIF_WALL_BUDGET", "0") or 0) or (3300.0 if tier == "thorough" else None)
     results = xh.run_obligations(pid, allobs, jobs=jobs, progress=progress, budget_s=budget)
     twin_res = results[:len(twins)]
     ob_res = results[len(twins):]
